@@ -314,9 +314,23 @@ pub fn cli_conformance(
     interpreted: bool,
     horizon: usize,
 ) -> (String, crate::refprog::RefRun, crate::cli::CliOut, Option<(String, String, String)>) {
+    let src = render(prog);
+    let (rr, out, res) = cli_conformance_src(&src, prog, macro_bodies, stdin_lines, interpreted, horizon);
+    (src, rr, out, res)
+}
+
+/// Same, for a given source text that must be a respelling of `prog` with the same line structure
+/// (one item per line): the reference runs on the AST, the binary on the text.
+pub fn cli_conformance_src(
+    src: &str,
+    prog: &Program,
+    macro_bodies: &std::collections::HashMap<String, Vec<Item>>,
+    stdin_lines: &[String],
+    interpreted: bool,
+    horizon: usize,
+) -> (crate::refprog::RefRun, crate::cli::CliOut, Option<(String, String, String)>) {
     use crate::cli::*;
     use crate::refprog as rp;
-    let src = render(prog);
     let flat = rp::flatten(prog, macro_bodies);
     let rr = rp::run(&flat, &rp::RunOpts { stdin: stdin_lines.to_vec(), interpreted, horizon });
     let mut stdin = String::new();
@@ -326,21 +340,42 @@ pub fn cli_conformance(
     }
     let mut o = CliOpts::default();
     o.interpreted = interpreted;
-    let out = run_cli(&src, &stdin, &o);
+    let out = run_cli(src, &stdin, &o);
     if rr.stop == rp::Stop::Horizon {
         // diverging program: not part of the explored space
-        return (src, rr, out, None);
+        return (rr, out, None);
     }
     if let Some(a) = out.abnormal() {
         let r = Some(("exit".to_string(), "normal termination (exit status 0)".to_string(), format!("{}: {}", a, out.summary())));
-        return (src, rr, out, r);
+        return (rr, out, r);
     }
     let res = {
-        let mut m = crate::cliobs::Matcher::new(&out.stdout, &src);
+        let mut m = crate::cliobs::Matcher::new(&out.stdout, src);
         match m.match_all(&rr.events) {
             Ok(()) => None,
             Err(e) => Some((e.field, e.expected, format!("event #{} of {:?}; {}", e.event_index, rr.events.len(), e.got))),
         }
     };
-    (src, rr, out, res)
+    (rr, out, res)
+}
+
+/// report the result of a CLI conformance run as a violation of `site`
+pub fn report_cli(rep: &Reporter, site: &str, res: Option<(String, String, String)>, src: &str, stdin_lines: &[String], interpreted: bool, out: &crate::cli::CliOut, extra: Value) {
+    if let Some((field, expected, got)) = res {
+        let mut stdin = String::new();
+        for l in stdin_lines {
+            stdin.push_str(l);
+            stdin.push('\n');
+        }
+        rep.report(Viol {
+            site: site.to_string(),
+            field,
+            vars: vec![],
+            got_val: None,
+            expected,
+            got,
+            case: json!({"src": src, "stdin": stdin, "interpreted": interpreted, "stdout": out.out(), "note": extra}),
+            weight: (src.len() + stdin.len()) as u64,
+        });
+    }
 }
